@@ -405,6 +405,15 @@ def tab10(units, R):
                 return ('tab', tc[0], tc[1], tc[2])
         return None
     all_edges = equal_edges(lambda c: literal_arg(c) is not None)
+    # a bounded comparison names the operation only if the bound takes the terminator in: strncmp(op, "add", 3) is true of "addendum"
+    for (nid_, pol_, call_) in all_edges:
+        la_ = literal_arg(call_)
+        if callee_name(call_) == 'strncmp' and la_[0] == 'lit' and len(call_['args']) == 3:
+            nb_ = const_val(call_['args'][2])
+            R.ob('TAB10', fn, call_, 'the comparison with "%s" is of the whole name' % la_[1], nb_ is not None and nb_ > len(la_[1]),
+                 '%s bytes compared, the literal and its terminator are %d' % (nb_, len(la_[1]) + 1) if (nb_ is not None and nb_ > len(la_[1])) else
+                 'only the first %s byte(s) are compared: every name that begins with "%s" is taken for it' % (nb_, la_[1]),
+                 key='whole:%s' % la_[1])
     for r in cfg.returns():
         if r.expr is None:
             continue
